@@ -2051,7 +2051,10 @@ func (e *executor) executeSetRow(ctx context.Context, index string, c *pql.Call,
 	}
 
 	result, err := e.mapReduce(ctx, index, shards, c, opt, mapFn, reduceFn)
-	return result.(bool), err
+	if err != nil {
+		return false, errors.Wrap(err, "mapreducing store")
+	}
+	return result.(bool), nil
 }
 
 // executeSetRowShard executes a SetRow() call for a single shard.
